@@ -451,7 +451,12 @@ pub fn get_best_move_until_stop(
     continue_running: &AtomicBool,
     max_depth: Option<u8>,
 ) -> Option<Move> {
-    let mut found_move = None;
+    // Fall back on a legal move if the search is stopped before the first iteration ends
+    let mut found_move = {
+        let mut moves = ArrayVec::new();
+        game.clone().get_moves(&mut moves, true);
+        moves.first().copied()
+    };
 
     let mut history = [0; 64 * 12];
 
@@ -476,7 +481,7 @@ pub fn get_best_move_until_stop(
         let mut hash = game.hash();
         let mut game_clone = game.clone();
 
-        found_move = best_move;
+        found_move = best_move.or(found_move);
 
         println!("info depth {}", depth);
         println!("info score cp {}", best_score);
